@@ -61,8 +61,9 @@ package fox
 //@   requires n != nil
 //@   ensures result <==> n.route != nil
 
-//@ func (*node).getEdge props C01,C03 partial
+//@ func (*node).getEdge props C01,C03
 //@   requires n != nil
+//@   requires safety-wf: len(n.childKeys) == len(n.children)
 //@   requires safety-sorted: len(n.children) > 50 ==> sortedBytes(n.childKeys)
 //@   ensures result != nil ==> exists i int :: 0 <= i && i < len(n.children) && result == n.children[i]
 
@@ -87,8 +88,8 @@ package fox
 //@   requires t != nil
 //@   modifies t.depth
 
-//@ func (roots).methodIndex props C02,C01 partial
-//@   requires safety-verbs: len(r) >= verb
+//@ func (roots).methodIndex props C02,C01
+//@   requires safety-verbs: len(r) >= verb && forall j int :: {r[j]} 0 <= j && j < len(r) ==> r[j] != nil
 //@   ensures range: -1 <= result && result < len(r)
 //@   ensures get: method == "GET" ==> result == 0
 //@   ensures post: method == "POST" ==> result == 1
